@@ -329,6 +329,24 @@ fn check_one<CS: BbsCiphersuite>(rep: &Report, ck: &str, c: &Case) -> CheckResul
             cx.expect_reject(&format!("{}-edit", which), acc, || format!("{:?}", e.as_ref().map(|x| hx(x))))?;
         }
     }
+    // long data replaced by a digest of itself (a "large input" shortcut that binds a long header, presentation
+    // header or disclosed message through a hash of it makes the hash a second spelling of the statement)
+    for (which, cur) in [("header", &header), ("ph", &ph)] {
+        let hb = cur.clone().unwrap_or_default();
+        if hb.len() > 64 {
+            for (tag, d) in crate::bbs::digests_of(c.suite, &hb) {
+                let acc = if which == "header" { ver(&dm, &idx, Some(&d), phd, pk) } else { ver(&dm, &idx, hdr, Some(&d), pk) };
+                cx.expect_reject(&format!("{}-replaced-by-its-digest", which), acc, || format!("{} octets := {}", hb.len(), tag))?;
+            }
+        }
+    }
+    if let Some((k, m)) = dm.iter().enumerate().max_by_key(|(_, m)| m.len()).filter(|(_, m)| m.len() > 64) {
+        for (tag, d) in crate::bbs::digests_of(c.suite, m) {
+            let mut d2 = dm.clone();
+            d2[k] = d;
+            cx.expect_reject("disclosed-message-replaced-by-its-digest", ver(&d2, &idx, hdr, phd, pk), || format!("disclosed #{} of {} octets := {}", k, m.len(), tag))?;
+        }
+    }
     // header and ph exchanged
     if header.clone().unwrap_or_default() != ph.clone().unwrap_or_default() {
         cx.expect_reject("header-ph-exchanged", ver(&dm, &idx, phd, hdr, pk), || "".into())?;
@@ -489,8 +507,11 @@ fn check_one<CS: BbsCiphersuite>(rep: &Report, ck: &str, c: &Case) -> CheckResul
         let ok_obj = object_from_ref::<CS>(&proof, &fp).map(|o| o.proof_verify(pk, Some(&claimed), Some(&claimed_idx), hdr, phd).is_ok());
         if !ok_oct || ok_obj != Some(true) {
             // the assembling code (or the reference's Bv/challenge) is wrong: harness error
-            out(&format!("INCONCLUSIVE property=C04 negative control failed (octets {}, object {:?})", ok_oct, ok_obj));
-            std::process::exit(2);
+            // (or the library's hashing departs from the drafts for this input). This case's forgery verdicts
+            // are withheld; the run continues and ends inconclusive unless another check shows a violation
+            rep.inconclusive(format!("negative control failed (octets {}, object {:?}) for case {}", ok_oct, ok_obj, serde_json::to_string(c).unwrap_or_default()));
+            rep.class("negative-control-failed");
+            return Ok(());
         }
         rep.class("negative-control-accepted(t=sk)");
     }
@@ -767,7 +788,7 @@ pub fn run(ctx: &Ctx, rep: &Report) -> Meta {
     run_cases(ctx, rep, "edits-and-forgeries", ctx.tier.pick(64, 800), 100, strat, |c| check(rep, "edits-and-forgeries", c));
     Meta {
         rule: "honest (pk, sig, msgs L=1..8, D, header, ph, proof) then (a) statement edits, all on the one proof object returned by proof_gen, verified honestly before and after them: every disclosed message changed / dropped, every disclosed index moved to every other position (as given and re-sorted), \
-               swaps, extra claims, list shapes (one more message than indexes, one more index than messages, a never-signed entry under an index that is already listed, before or after the genuine pair), header / ph edits (including one of the same length with the same FNV-1a-32 value) and exchange, pk edits, every whole-scalar removal / duplication / insertion / append, cross-suite, blind interface; \
+               swaps, extra claims, list shapes (one more message than indexes, one more index than messages, a never-signed entry under an index that is already listed, before or after the genuine pair), header / ph edits (including one of the same length with the same FNV-1a-32 value) and exchange, header / ph / longest disclosed message above 64 octets replaced by 27 digests of itself (SHA-2, SHA-3, SHAKE, the suite's expand_message / hash_to_scalar under the library's tags), pk edits, every whole-scalar removal / duplication / insertion / append, cross-suite, blind interface; \
                (b) single-bit flips of the proof octets (all bits for the all-bit-flips proofs with U in {0,1,3}; 96 sampled bits otherwise); \
                (c) attacker programs from public data only: Abar, Bbar in {O, Bv, P1, Q1, H1, rnd}^2 x D in {O, Bv, k*Bv, P1, rnd} with responses solving T1/T2 where possible, \
                the (P, t*P, k*Bv) family that only the pairing stops, points of cofactor order Q outside the subgroup (Abar = Q with Bbar in {-Q, Q, O, 2Q}, P+-Q, D = Bv + Q: pairs and triples that cancel in a sum), each as octets and as a serde-built object, plain and blind verifier; negative control t = sk must be accepted; \
